@@ -711,30 +711,31 @@ def _deserialized_experimental_value_info_for_function_ir9(
     The experimental format is:
     {function_domain}::{function_name}/{value_name}
     """
-    # Parse value info for functions from the main graph
+    # Parse value info for functions from the main graph.
+    # The name written by _serialize_experimental_value_info_for_function_ir9_into is
+    # f"{domain}::{name}/{value_name}". It carries no overload, and the domain, the function
+    # name and the value name may themselves contain "::" or "/", so the name cannot be split
+    # on its own: match it against the qualified names of the functions that exist instead.
     function_value_value_info_mapping: collections.defaultdict[
         _protocols.OperatorIdentifier,
         dict[str, onnx.ValueInfoProto],
     ] = collections.defaultdict(dict)
+    prefixes = [
+        (function_id, f"{function.domain}::{function.name}/")
+        for function_id, function in functions.items()
+    ]
     for value_info_proto in value_info_protos:
-        if (
-            parsed := _parse_experimental_function_value_info_name(value_info_proto.name)
-        ) is None:
-            continue
-        function_domain, function_name, value_name = parsed
-        function_overload = ""
-        # TODO(justinchuby): Create a constructor for OperatorIdentifier so we don't create tuples manually
-        function_id = (function_domain, function_name, function_overload)
-        function = functions.get(function_id)
-        if function is None:
-            # Function not found
+        matched = False
+        for function_id, prefix in prefixes:
+            if value_info_proto.name.startswith(prefix):
+                value_name = value_info_proto.name[len(prefix) :]
+                function_value_value_info_mapping[function_id][value_name] = value_info_proto
+                matched = True
+        if not matched and _parse_experimental_function_value_info_name(value_info_proto.name):
             logger.debug(
-                "Function with ID '%s' not found in model functions. Value info '%s' will be ignored.",
-                function_id,
+                "No function matches value info '%s'. It will be ignored.",
                 value_info_proto.name,
             )
-            continue
-        function_value_value_info_mapping[function_id][value_name] = value_info_proto
     for function_id, function in functions.items():
         for input in function.inputs:
             if input.name in function_value_value_info_mapping[function_id]:
